@@ -321,6 +321,12 @@ static HR h_prime_need(HARGS) {
 }
 static HR h_strtod(HARGS) {
   uint64_t p = conc(a[0]), e = conc(a[1]);
+  for (uint64_t i = 0; i < 64; ++i) {   // symbolic characters of the (already lexed) number are concretized by forking over their feasible values
+    Val b = loadBytes(p + i, 1, 8);
+    uint64_t v = b.s ? concretize(b) : b.c;
+    if (b.s) storeBytes(p + i, mkInt(v, 8), 1);
+    if ((v & 0xff) == 0) break;
+  }
   std::string s = readCStr(p);
   if (!rangeConcrete(p, s.size() + 1)) unsupported("strtod on symbolic text");
   char* end = nullptr;
